@@ -145,6 +145,22 @@ def collect(cfg):
             ser["live"].append({"e": int(s.epoch), "len": len(s), "list": _ints(s)})
             rec["n_epochs"] += 2
         rec["serialised"] = ser
+        # ---- resuming at an epoch number that arrives as a numpy scalar of a narrow type (read from an array of
+        # checkpoint metadata): six epochs on, across the type's own range, it is still the epoch it says
+        try:
+            import numpy as np
+        except ImportError:  # pragma: no cover
+            np = None
+        if np is not None and cfg["N"] <= 64:
+            s = _make(cfg, np.uint8(252))
+            rec["n_ctor"] += 1
+            nx = {"lists": [], "direct": [], "epoch_attr": []}
+            for k in range(6):
+                nx["epoch_attr"].append(int(s.epoch))
+                nx["lists"].append(_ints(s))
+                nx["direct"].append(_ints(s0.get_samples_for_epoch(252 + k)))
+                rec["n_epochs"] += 1
+            rec["numpy_epoch"] = nx
         # ---- an abandoned iterator consumes its epoch
         p = cfg.get("partial")
         if p is not None:
